@@ -221,9 +221,27 @@ class Runner:
             seen.add(name)
             d = os.path.join(self.homes, "h%d" % i)
             state = a["home"]
+            for p_ in (d, d + "-real"):          # left over from the previous scenario (a directory or a link)
+                if os.path.islink(p_):
+                    os.unlink(p_)
+                elif os.path.isdir(p_):
+                    shutil.rmtree(p_)
             if state == "missing":
                 d = d + "-missing"
                 owner, exists = None, False
+            elif state.startswith("link"):
+                # the passwd entry names a symbolic link made by root (/home/joe -> /export/home/joe): what counts is the directory behind it
+                real = d + "-real"
+                if state == "link_dangling":
+                    os.symlink(real + "-nowhere", d)
+                    owner, exists = None, False
+                else:
+                    os.makedirs(real, exist_ok=True)
+                    owner = a["uid"] if state == "link_own" else a["uid"] + 1
+                    os.chown(real, owner, a["gid"])
+                    os.symlink(real, d)
+                    exists = True
+                os.lchown(d, 0, 0)
             else:
                 os.makedirs(d, exist_ok=True)
                 owner = a["uid"] if state == "own" else (a["uid"] + 1 if state == "other" else 0)
@@ -590,7 +608,7 @@ def scenarios(brk):
             if b":" in nm or not nm:
                 nm = b"acct%d" % i
             accts.append({"name": vlib.jsonable(nm), "uid": draw(st.sampled_from([0] + [8000 + i] * 7)), "gid": 9000 + i,
-                          "home": draw(st.sampled_from(["own", "own", "own", "own", "other", "root", "missing"]))})
+                          "home": draw(st.sampled_from(["own", "own", "own", "own", "other", "root", "missing", "link_own", "link_own", "link_other", "link_dangling"]))})
         alias = draw(st.sampled_from(["present"] * 5 + ["owned", "owned", "missing", "uid0"]))
         # local parts: derived from every entry and account
         bases = [vlib.unjson(l["local"]) for l in lines] + [vlib.unjson(a["name"]) for a in accts] * (3 if focus == "passwd" else 1) + stems + [b"alias"]
